@@ -214,7 +214,7 @@ class Interp:
         else:
             v = Val(fty, term)
         if st.spec_depth == 0:
-            st.assume_type_inv(v)
+            st.assume_type_inv(v, finite=attr not in REG.unbounded)
         else:
             self.spec_type_inv(st, v)
         return v
@@ -417,6 +417,8 @@ class Interp:
         fr = st.frame
         if fr.spec_env is not None and name in fr.spec_env:
             return fr.spec_env[name]
+        if st.spec_depth > 0 and name in ("INF", "TRUE", "FALSE"):
+            return {"INF": mkreal(INF), "TRUE": mkbool(True), "FALSE": mkbool(False)}[name]
         if name in self.db.specfuns and st.spec_depth > 0:
             return Val("Fun", ("specfun", name))
         if name in prelude.SPEC_BUILTINS and st.spec_depth > 0:
@@ -1042,7 +1044,14 @@ class Interp:
             if "LazyProxy" in kd.ancestors(REG):
                 inner = self.get_attr(st, obj, "obj", node)
                 return self.get_attr(st, inner, attr, node)
-            # a field of a subclass?  (dynamic type refinement is not attempted)
+            if st.spec_depth > 0:
+                # specs may name a field of a subclass under a type guard: the heap read is total
+                roots = REG.get(clsname).ancestors(REG)
+                cands = [n for n in list(REG.klasses) if any(r in REG.get(n).ancestors(REG) for r in roots if REG.get(r).kind == "object")]
+                for sub in cands:
+                    f2 = self.field_type(sub, attr)
+                    if f2 is not None:
+                        return self.read_field(st, obj, attr, f2)
             raise Unsupported("attribute %s.%s is not declared in the sidecar registry (line %s)"
                               % (clsname, attr, getattr(node, "lineno", "?")))
         raise Unsupported("attribute %s on %s (line %s)" % (attr, ty_str(ty), getattr(node, "lineno", "?")))
@@ -1274,6 +1283,12 @@ class Interp:
         elif isinstance(target, ast.Subscript):
             obj = self.eval(st, target.value)
             idx = self.eval(st, target.slice)
+            if obj.extra and obj.extra[0] == "emptydict" and obj.term is None:
+                # `x = {}` ... `x[k] = v`: the literal gets its class from the first store
+                cls = "Dict[%s,%s]" % (ty_str(strip_opt(idx.ty)), ty_str(strip_opt(v.ty)))
+                REG.parse(cls)
+                obj = self.new_dict(st, cls)
+                self.assign(st, target.value, obj)
             self.set_item(st, obj, idx, v, target)
         elif isinstance(target, (ast.Tuple, ast.List)):
             base = strip_opt(v.ty)
